@@ -147,17 +147,17 @@ def _method_ns():
     return ns
 
 
-def build(fields):
-    """recipe list -> (Schema, {key: function})"""
+def build(fields, dynamic=False):
+    """recipe list -> (Schema, {key: function}); ["dschema", fields] is a nested Schema(dynamic=True)"""
     import cincoconfig as cc
     fb = _field_builders()
-    s = cc.Schema()
+    s = cc.Schema(dynamic=True) if dynamic else cc.Schema()
     fns = {}
     for key, rec in fields:
         if rec[0] == "f":
             s._add_field(key, fb[rec[1]]())
-        elif rec[0] == "schema":
-            sub, _ = build(rec[1])
+        elif rec[0] in ("schema", "dschema"):
+            sub, _ = build(rec[1], dynamic=rec[0] == "dschema")
             s._add_field(key, sub)
         elif rec[0] == "ct":
             sub = cc.Schema()
@@ -265,7 +265,7 @@ def g_fkind(d):
 def describe(c):
     """model input of a case: (target literal, class_name, described fields); cached under _desc"""
     if "_desc" not in c:
-        schema, _ = build(c["fields"])
+        schema, _ = build(c["fields"], c.get("dynamic", False))
         c["_desc"] = d_fields(schema)
     return c["_desc"]
 
@@ -393,6 +393,44 @@ def preconditions(c, schema):
     return True
 
 
+def apply_runtime(cfg, ops):
+    """fields added to a configuration of a dynamic schema at run time"""
+    for op in ops:
+        if op[0] == "set":
+            cfg[op[1]] = op[2]
+        else:
+            cfg.load_tree(op[1])
+
+
+def snap_cfg(cfg, ids=True):
+    """the run-time field table of a configuration and of every nested configuration (names, identities)"""
+    from cincoconfig.core import Config
+    out = [[(k, id(f) if ids else type(f).__name__) for k, f in cfg._fields.items()]]
+    for k, v in cfg._data.items():
+        if isinstance(v, Config):
+            out.append((k, snap_cfg(v, ids)))
+    return out
+
+
+def sub_configs(cfg, prefix=""):
+    """(path, nested configuration) for every nested configuration holding run-time fields"""
+    from cincoconfig.core import Config
+    out = []
+    for k, v in cfg._data.items():
+        if isinstance(v, Config):
+            if v._fields:
+                out.append((prefix + k, v))
+            out += sub_configs(v, prefix + k + ".")
+    return out
+
+
+def expectations(schema):
+    from cincoconfig.fields import VirtualField, InstanceMethodField
+    return ([k for k, f in schema._fields.items() if not isinstance(f, InstanceMethodField)],
+            [k for k, f in schema._fields.items() if not isinstance(f, (InstanceMethodField, VirtualField))],
+            [(k, sig_of(f.method)) for k, f in schema._fields.items() if isinstance(f, InstanceMethodField)])
+
+
 def fn_snapshot(fns):
     """what a caller can observe of the method functions: signature, annotations, defaults"""
     return [(k, str(inspect.signature(fn)), repr(fn.__annotations__), repr(fn.__defaults__), repr(fn.__kwdefaults__),
@@ -404,7 +442,7 @@ def impl(c):
     from cincoconfig.fields import VirtualField, InstanceMethodField
     from cincoconfig.stubs import generate_stub
     try:
-        schema, fns = build(c["fields"])
+        schema, fns = build(c["fields"], c.get("dynamic", False))
         c["_desc"] = d_fields(schema)
         # expectations, from the real objects, before the call
         c["_exp_attrs"] = [k for k, f in schema._fields.items() if not isinstance(f, InstanceMethodField)]
@@ -414,10 +452,15 @@ def impl(c):
         c["_noself"] = [k for k, f in schema._fields.items() if isinstance(f, InstanceMethodField)
                         and not inspect.getfullargspec(f.method).args]
         cfg = None
+        cfg_rt = None
+        if c.get("runtime"):
+            # a configuration of the (dynamic) schema that got extra fields at run time
+            cfg_rt = schema()
+            apply_runtime(cfg_rt, c["runtime"])
         if c["target"] == "schema":
             tgt = schema
         elif c["target"] == "config":
-            tgt = cfg = schema()
+            tgt = cfg = (cfg_rt if cfg_rt is not None else schema())
         elif c["target"] == "type":
             tgt = cc.make_type(schema, c.get("type_name") or "T")
         else:
@@ -426,6 +469,9 @@ def impl(c):
         before = snap_schema(schema)
         before_cfg = repr(cc.asdict(cfg)) if cfg is not None else None
         fn_before = fn_snapshot(fns)
+        rt_before = (snap_cfg(cfg_rt), repr(cfg_rt.to_tree())) if cfg_rt is not None else None
+        fresh_before = schema()
+        fresh_before = (snap_cfg(fresh_before, ids=False), repr(fresh_before.to_tree()))
     except Exception as e:  # noqa
         c["_setup_error"] = "%s: %s" % (type(e).__name__, e)
         return ("err", "setup")
@@ -462,6 +508,15 @@ def impl(c):
             repeats.append(("the schema", gen(schema, c["_exp_class"]), True))
             cfg2 = schema()
             repeats.append(("a configuration built from the schema", gen(cfg2, c["_exp_class"]), True))
+            if cfg_rt is not None:
+                repeats.append(("a configuration holding run-time fields", gen(cfg_rt, c["_exp_class"]), True))
+                nested = []
+                for path, sc in sub_configs(cfg_rt):
+                    ea, ei, em = expectations(sc._schema)
+                    nested.append((path, gen(sc, "Sub"), ea, ei, em, "<locals>" in repr(d_fields(sc._schema)),
+                                   [k for k, f in sc._schema._fields.items() if isinstance(f, InstanceMethodField)
+                                    and not inspect.getfullargspec(f.method).args]))
+                c["_nested"] = nested
             sib = cc.Schema()
             for k, fn in fns.items():
                 cc.instance_method(sib, k)(fn)
@@ -481,6 +536,12 @@ def impl(c):
     c["_stdout"] = buf.getvalue()
     c["_unchanged"] = (snap_schema(schema) == before
                        and (cfg is None or repr(cc.asdict(cfg)) == before_cfg))
+    try:
+        c["_rt_unchanged"] = cfg_rt is None or (snap_cfg(cfg_rt), repr(cfg_rt.to_tree())) == rt_before
+        fresh_after = schema()        # a SECOND configuration built afterwards must not carry the extras
+        c["_fresh_same"] = (snap_cfg(fresh_after, ids=False), repr(fresh_after.to_tree())) == fresh_before
+    except Exception as e:  # noqa
+        c["_rt_unchanged"] = c["_fresh_same"] = False
     if out is not None:
         c["_text"] = None
         return out
@@ -550,6 +611,19 @@ def oracle(c, obs):
         bad.append("generate_stub wrote to standard output")
     if not c.get("_unchanged"):
         bad.append("generate_stub changed the schema or the configuration")
+    if not c.get("_rt_unchanged", True):
+        bad.append("generate_stub changed a configuration that holds run-time fields")
+    if not c.get("_fresh_same", True):
+        bad.append("a configuration built from the schema after generate_stub differs from one built before")
+    for path, r, ea, ei, em, f52, noself in c.get("_nested", []):
+        if isinstance(r, tuple):
+            add(["generate_stub raised for the nested dynamic configuration %s" % path])
+        else:
+            msgs = check_text(r, "Sub", list(ea), list(ei), [(k, w) for k, w in em])
+            # the nested schema itself lies in the region of the open finding F52
+            # ... or holds a method in the region of the open finding F45 (both are raised at the root only)
+            f45 = ["method %s: parameter names/kinds differ from the bound function" % k for k in noself]
+            add([m for m in msgs if not (f52 and m == "the generated stub is not valid Python") and m not in f45])
     if not c.get("_fn_unchanged", True):
         bad.append("generate_stub changed the signature / annotations / defaults of a method function")
     first = c.get("_first")
@@ -617,6 +691,14 @@ def tags(c, obs):
         t.add("F45-region")
     if c.get("_f52"):
         t.add("F52-region")
+    if c.get("dynamic"):
+        t.add("dynamic-root")
+    if c.get("runtime"):
+        t.add("runtime-fields=%d" % min(len(c["runtime"]), 3))
+        if any(op[0] == "load" for op in c["runtime"]):
+            t.add("runtime:load_tree")
+        if any(op[0] == "set" and "." in op[1] for op in c["runtime"]):
+            t.add("runtime:nested")
     return t
 
 
@@ -764,7 +846,8 @@ def rfields(rng, depth=0, allow_methods=True):
         else:
             r = rng.random()
             if r < 0.08 and depth < 2:
-                fields.append([k, ["schema", rfields(rng, depth + 1, allow_methods=rng.random() < 0.3)]])
+                fields.append([k, [rng.choice(["schema", "schema", "dschema"]),
+                                   rfields(rng, depth + 1, allow_methods=rng.random() < 0.3)]])
             elif r < 0.16:
                 fields.append([k, ["ct", rng.choice(["CT", "Item", "Endpoint"])]])
             elif r < 0.30:
@@ -776,8 +859,43 @@ def rfields(rng, depth=0, allow_methods=True):
     return fields
 
 
-def case(fields, target="schema", class_name="Foo", type_name="T", domain=True):
-    return {"target": target, "class_name": class_name, "type_name": type_name, "fields": fields, "domain": domain}
+def case(fields, target="schema", class_name="Foo", type_name="T", domain=True, dynamic=False, runtime=None):
+    c = {"target": target, "class_name": class_name, "type_name": type_name, "fields": fields, "domain": domain}
+    if dynamic:
+        c["dynamic"] = True
+    if runtime:
+        c["runtime"] = runtime
+    return c
+
+
+RT_KEYS = ["rt_a", "rt_b", "build_tag", "retries", "zz"]
+RT_VALUES = [1, "r1234", [1, 2], {"k": "v"}, None, 2.5, True]
+
+
+def dynamic_paths(fields, dynamic_root, prefix=""):
+    """dotted prefixes of the dynamic (sub-)schemas of a recipe"""
+    out = [prefix] if dynamic_root else []
+    for k, rec in fields:
+        if rec[0] in ("schema", "dschema"):
+            out += dynamic_paths(rec[1], rec[0] == "dschema", prefix + k + ".")
+    return out
+
+
+def rruntime(rng, fields, dynamic_root):
+    paths = dynamic_paths(fields, dynamic_root)
+    ops = []
+    if not paths:
+        return ops
+    for _ in range(rng.choice([1, 1, 2, 3])):
+        pre = rng.choice(paths)
+        if rng.random() < 0.3:
+            tree = {rng.choice(RT_KEYS): rng.choice(RT_VALUES)}
+            for part in reversed([x for x in pre.split(".") if x]):
+                tree = {part: tree}
+            ops.append(["load", tree])
+        else:
+            ops.append(["set", pre + rng.choice(RT_KEYS), rng.choice(RT_VALUES)])
+    return ops
 
 
 def generate(rng, tier):
@@ -811,6 +929,22 @@ def generate(rng, tier):
                          ("other", "Thing", False), ("other", None, False)):
         cases.append(case([list(x) for x in base], target=tgt, class_name=cn, type_name="MyType", domain=dom))
         cases.append(case([], target=tgt, class_name=cn, type_name="Empty", domain=dom))
+    # dynamic schemas whose configurations got fields at run time (assignment, load_tree; root and nested)
+    dyn = [["name", ["f", "str"]], ["port", ["f", "int"]], ["address", ["f", "virtual"]],
+           ["db", ["dschema", [["host", ["f", "str"]]]]], ["plain", ["schema", [["q", ["f", "int"]]]]],
+           ["m", ["method", POOL[28]]]]
+    rts = ([["set", "build_tag", "r1234"], ["set", "retries", 3]],
+           [["load", {"rt_a": 1, "port": 8080}]],
+           [["set", "db.rt_b", [1, 2]]],
+           [["load", {"db": {"zz": {"k": "v"}}}], ["set", "rt_a", None]],
+           [["set", "build_tag", "x"], ["set", "db.build_tag", "y"], ["load", {"retries": 1, "db": {"retries": 2}}]])
+    for rt in rts:
+        for tgt in ("config", "schema", "type"):
+            cases.append(case([list(x) for x in dyn], target=tgt, class_name="Service", type_name="Service",
+                              dynamic=True, runtime=[list(o) for o in rt]))
+    cases.append(case([list(x) for x in dyn], target="config", class_name="Service", dynamic=True))
+    cases.append(case([], target="config", class_name="Empty", dynamic=True, runtime=[["set", "rt_a", 1]]))
+    cases.append(case([["db", ["dschema", []]]], target="config", class_name="Nested", runtime=[["set", "db.rt_a", 1]]))
     # ---- random ------------------------------------------------------------------------------
     n = 450 if tier == "quick" else 9000
     for _ in range(n):
@@ -819,7 +953,11 @@ def generate(rng, tier):
         cn = rng.choice(["Foo", "Thing", "_Cfg", "AppConfig2"])
         if tgt == "type" and rng.random() < 0.5:
             cn = None
-        cases.append(case(rfields(rng), target=tgt, class_name=cn, type_name=rng.choice(["T", "AppConfig", "Item"])))
+        fields = rfields(rng)
+        dynamic = rng.random() < 0.3
+        runtime = rruntime(rng, fields, dynamic) if rng.random() < 0.8 else None
+        cases.append(case(fields, target=tgt, class_name=cn, type_name=rng.choice(["T", "AppConfig", "Item"]),
+                          dynamic=dynamic, runtime=runtime))
     for c in cases:
         assert all(k.isidentifier() and not keyword.iskeyword(k) for k, _ in c["fields"])
     return cases
